@@ -873,7 +873,7 @@ class RouteMon(Monitor):
     never into blocked inputs, leave groups through the path they entered by; routing
     history = observed route; collected list in arrival order; idle-longest rule.'''
     prop = 'C08'
-    _canon_skip = ('pre_idle', 'kinds')
+    _canon_skip = ('pre_idle', 'kinds', 'g_in', 'g_out', 'members', 'path_group')
 
     def __init__(self, idle_rule=False):
         self.idle_rule = idle_rule
@@ -887,11 +887,15 @@ class RouteMon(Monitor):
     def attach(self, w):
         self.kinds = {}
         self.members = {}
+        self.g_in = {}
+        self.g_out = {}
         self.path_group = {}
         for d in w.spec['devices']:
             self.kinds[d['name']] = d['kind']
             if d['kind'] == 'group':
                 self.members[d['name']] = list(d['members'])
+                self.g_in[d['name']] = list(d.get('inputs') or d['members'][:1])
+                self.g_out[d['name']] = list(d.get('outputs') or d['members'][-1:])
             elif d['kind'] == 'path':
                 self.path_group[d['name']] = d['group']
                 self.up[d['name']] = list(d.get('up', []))
@@ -990,9 +994,9 @@ class RouteMon(Monitor):
                     w.facts.append('group_exit')
                     if isinstance(rdev, GroupOutput):
                         # nested groups: the inner path is the last device of the enclosing group
-                        if entry != self.members[rdev._group.name][-1]:
+                        if entry not in self.g_out[rdev._group.name]:
                             raise Violation('group_exit', f'part {pid} left group {gname} through {entry} into the output of group '
-                                                          f'{rdev._group.name}, whose last device is {self.members[rdev._group.name][-1]}')
+                                                          f'{rdev._group.name}, whose output devices are {self.g_out[rdev._group.name]}')
                         w.facts.append('nested_group_exit')
                     elif rname not in self.downstream_of(entry):
                         raise Violation('group_exit', f'part {pid} entered group {gname} through {entry} but left '
@@ -1002,12 +1006,12 @@ class RouteMon(Monitor):
                         raise Violation('edge', f'{prev} -> input of group {rdev._group.name} is not configured')
                 elif isinstance(rdev, GroupOutput):
                     gname = rdev._group.name
-                    if prev != self.members[gname][-1]:
-                        raise Violation('edge', f'{prev} -> output of group {gname}: not the last device of the group')
+                    if prev not in self.g_out[gname]:
+                        raise Violation('edge', f'{prev} -> output of group {gname}: not an output device of the group')
                 elif isinstance(prev_dev, GroupInput):
                     gname = prev_dev._group.name
-                    if rname != self.members[gname][0]:
-                        raise Violation('edge', f'input of group {gname} -> {rname}: not the first device of the group')
+                    if rname not in self.g_in[gname]:
+                        raise Violation('edge', f'input of group {gname} -> {rname}: not an input device of the group')
                 else:
                     if prev not in self.up.get(rname, []):
                         raise Violation('edge', f'part {pid} moved {prev} -> {rname}: not a configured connection')
